@@ -269,14 +269,14 @@ theorem from_any_result {fetch : Bytes → Option Table} {q : Select} {tr : Tabl
       Spec.sortKeys q hdr = some keys ∧ got.Perm want ∧
       (∀ a ∈ want, ∀ b ∈ want, KeyComparable keys a b) ∧
       rows = cut q.lim (sortRows keys got) := by
-  obtain ⟨src, fields, filtered, projected, agg, keys, hj, hwh, hproj, hag, hkeys, hcomp, rfl⟩ :=
+  obtain ⟨src, fields, filtered, projected, agg, keys, hj, hwh, hproj, hag, hkeys, hcomp, rfl, _⟩ :=
     (evaluateSelect_iff hfrom).1 h
   rw [aggregateRows_noAggr _ hagg hgb] at hag
   cases hag
   obtain ⟨srcS, hfr, hpsrc⟩ := fromRows_of_nestedLoopJoin fetch tr src fields hj
   have hsw := whereX_ok_spec (by unfold whereIsBoolean at hw; exact hw) hwh
   obtain ⟨filteredS, hswS, hpf⟩ := specWhere_perm hpsrc.symm hsw
-  have hst := (projectColumns_iff_specTail hagg hgb).1 ⟨hdr, hproj⟩
+  have hst := (projectColumns_iff_specTail (NoPanicP.projectColumns_ok_ne_nil hproj) hagg hgb).1 ⟨hdr, hproj⟩
   obtain ⟨want, hstS, hpw⟩ := specTail_plain_perm hagg hgb hpf hst
   refine ⟨want, projected, keys, ?_, ?_, resolveSortKeys_iff_spec.1 hkeys, hpw.symm, ?_, rfl⟩
   · rw [meaning_of hfrom hfr, hswS]; exact hstS
@@ -287,6 +287,7 @@ theorem from_any_result {fetch : Bytes → Option Table} {q : Select} {tr : Tabl
 a permutation of the meaning, sorted and cut -/
 theorem from_any_answered {fetch : Bytes → Option Table} {q : Select} {tr : TableRef}
     (hfrom : q.from_ = some tr) (hagg : hasAggr q.list = false) (hgb : q.groupBy = [])
+    (hne : q.list ≠ []) (hb : Spec.boundsOK q.lim = true)
     {want : List Row} {keys : List (Nat × Bool)}
     (hm : Spec.meaning fetch q = some want)
     (hk : Spec.sortKeys q (judgeHeader fetch q) = some keys)
@@ -301,7 +302,7 @@ theorem from_any_answered {fetch : Bytes → Option Table} {q : Select} {tr : Ta
   obtain ⟨src, fieldsM, hj, rfl, hpsrc⟩ := nestedLoopJoin_perm_fromRows fetch tr srcS fields hfr
   obtain ⟨filtered, hsw, hpf⟩ := specWhere_perm hpsrc hswS
   obtain ⟨got, hst, hpg⟩ := specTail_plain_perm hagg hgb hpf hstS
-  obtain ⟨hdr', hproj⟩ := (projectColumns_iff_specTail hagg hgb).2 hst
+  obtain ⟨hdr', hproj⟩ := (projectColumns_iff_specTail hne hagg hgb).2 hst
   have hh : projectColumns q.list (judgeFields fetch q) [] = .ok ([], hdr') := by
     rw [judgeFields_of hfrom hfr]; exact projectColumns_header hproj
   rw [judgeHeader_of hh] at hk ⊢
@@ -309,7 +310,7 @@ theorem from_any_answered {fetch : Bytes → Option Table} {q : Select} {tr : Ta
   rw [evaluateSelect_iff hfrom]
   exact ⟨src, fieldsM, filtered, got, got, keys, hj, specWhere_whereX hsw, hproj,
     aggregateRows_noAggr _ hagg hgb, resolveSortKeys_iff_spec.2 hk,
-    fun a ha b hb => hcomp a (hpg.mem_iff.1 ha) b (hpg.mem_iff.1 hb), rfl⟩
+    fun a ha b hb' => hcomp a (hpg.mem_iff.1 ha) b (hpg.mem_iff.1 hb'), rfl, hb⟩
 
 /-- `Spec.satisfies` for a permutation of the meaning, sorted and cut, when the comparison is by
 multiset (anything but one table without aggregates) -/
